@@ -70,6 +70,9 @@ type Sim struct {
 
 var cur *Sim
 
+// SiteProf, when non-nil, counts yields per site (index = site+512). Debug aid.
+var SiteProf []int
+
 // Active reports whether a simulation is in progress.
 //
 //go:norace
@@ -310,6 +313,11 @@ func Yield(site int32) {
 	s.Steps++
 	me.Steps++
 	s.lastSite[me.id] = site
+	if SiteProf != nil {
+		if i := int(site) + 512; i >= 0 && i < len(SiteProf) {
+			SiteProf[i]++
+		}
+	}
 	s.T.Event(uint64(me.id)+1, uint64(uint32(site)))
 	if s.Steps > s.MaxSteps {
 		s.Livelock = true
